@@ -5,7 +5,7 @@
 # (a patch whose lines a later fix: commit rewrote is kept re-expressed on the current HEAD as <name>_on_head.diff)
 P=${1:-4}
 cd /verif
-ls seeded/refactors/R?_strict.diff seeded/refactors/R?_loose.diff | xargs -P $P -I{} bash -c 'f={}; l=$(basename $f .diff); [ -f "${f%.diff}_on_head.diff" ] && f="${f%.diff}_on_head.diff"; tools/alltest.sh $f $l >/dev/null 2>&1'
+ls seeded/refactors/R?_strict.diff seeded/refactors/R?_loose.diff | xargs -P $P -I{} bash -c 'f={}; l=$(basename $f .diff); [ -f "${f%.diff}_on_head.diff" ] && f="${f%.diff}_on_head.diff"; tools/alltest.sh $f $l $PIDS >/dev/null 2>&1'
 for f in seeded/refactors/R?_strict.diff seeded/refactors/R?_loose.diff; do
   l=$(basename $f .diff); log=.work/alltest/$l.log
   tot=$(grep -c '^VIOLATION' $log); claimed=$(grep '^VIOLATION' $log | grep -vc 'no-failing-input-found')
